@@ -645,6 +645,12 @@ pub fn rekey(
     msk: &mut MasterSecretKey,
     rights: HashSet<Right>,
 ) -> Result<(), Error> {
+    // Check all rights first not to leave the MSK partially re-keyed.
+    if rights.iter().any(|r| msk.secrets.get_latest(r).is_none()) {
+        return Err(Error::OperationNotPermitted(
+            "cannot re-key a right not belonging to the MSK".to_string(),
+        ));
+    }
     for r in rights {
         if msk.secrets.contains_key(&r) {
             let (is_activated, is_hybridized) = msk
